@@ -32,7 +32,7 @@ type Fault struct {
 var masterFaults = []string{"fin", "rst", "short", "outofseq", "err", "eof", "invalid", "unsupported", "undecodable"}
 
 // Replica-side fault kinds.
-var clientFaults = []string{"cancel_out", "cancel_in", "handler_err", "mapper_err", "mapper_cols"}
+var clientFaults = []string{"cancel_out", "cancel_in", "cancel_log", "handler_err", "handler_err_cancel", "mapper_err", "mapper_cols"}
 
 // Connect-phase fault kinds.
 var connectFaults = []string{"refuse", "err_handshake", "err_query", "cancel_handshake"}
@@ -77,11 +77,10 @@ func badBytes(real []byte, sub int) []byte {
 
 // hostileEvent builds a well-framed event (passes the validity gate) that the
 // replica must refuse: unsupported types, or bodies it cannot decode.
-func hostileEvent(h *hist.History, kind string, sub int, pos uint32) []byte {
+func hostileEvent(h *hist.History, kind string, sub int, pos uint32, crc bool) []byte {
 	hd := func(typ byte) refenc.Header {
 		return refenc.Header{Timestamp: 1234, Type: typ, ServerID: h.Cfg.ServerID, LogPos: pos}
 	}
-	crc := h.Cfg.Checksum
 	if kind == "unsupported" {
 		switch sub % 3 {
 		case 0:
@@ -128,6 +127,14 @@ func applyFault(l *hist.Layout, f Fault) func([]fakemaster.Step, []int) []fakema
 		head := append([]fakemaster.Step{}, steps[:i]...)
 		rest := steps[i:]
 		lastReal := l.H.FDEBytes(0)
+		// the checksum setting in force at the injection point is that of the file whose format
+		// description was sent last (a well-formed injected event must be framed like its neighbours)
+		crc := l.H.Cfg.Checksum
+		if i > 0 {
+			crc = l.CRC[steps[i-1].Aux]
+		} else if len(steps) > 0 {
+			crc = l.CRC[steps[0].Aux]
+		}
 		for j := i; j >= 0 && j < len(evIdx); j-- {
 			if evIdx[j] >= 0 {
 				lastReal = l.Events[evIdx[j]].Bytes
@@ -163,10 +170,10 @@ func applyFault(l *hist.Layout, f Fault) func([]fakemaster.Step, []int) []fakema
 		case "invalid":
 			return append(append(head, fakemaster.Step{Payload: fakemaster.EventPacket(badBytes(lastReal, f.Sub)), Tag: -9}), rest...)
 		case "unsupported", "undecodable":
-			out := append(head, fakemaster.Step{Payload: fakemaster.EventPacket(hostileEvent(l.H, f.Kind, f.Sub, pos)), Tag: -9})
+			out := append(head, fakemaster.Step{Payload: fakemaster.EventPacket(hostileEvent(l.H, f.Kind, f.Sub, pos, crc)), Tag: -9})
 			if f.Kind == "undecodable" && f.Sub%6 == 4 {
 				// the unknown checksum algorithm only bites on the next event
-				out = append(out, fakemaster.Step{Payload: fakemaster.EventPacket(hostileEvent(l.H, "unsupported", 1, pos)), Tag: -9})
+				out = append(out, fakemaster.Step{Payload: fakemaster.EventPacket(hostileEvent(l.H, "unsupported", 1, pos, crc)), Tag: -9})
 			}
 			return append(out, rest...)
 		}
@@ -226,8 +233,12 @@ func drawFault(rt *rapid.T, kinds []string, nsteps, ntx int) Fault {
 		}
 	case f.Kind == "cancel_out":
 		f.At = rapid.IntRange(0, nsteps).Draw(rt, "cancel_at")
-	case f.Kind == "cancel_in" || f.Kind == "handler_err":
+	case f.Kind == "cancel_in" || f.Kind == "handler_err" || f.Kind == "handler_err_cancel":
 		f.At = rapid.IntRange(1, max(1, ntx)).Draw(rt, "call_at")
+	case f.Kind == "cancel_log":
+		// the context is cancelled at the At-th log call made on the Stream goroutine: a cancellation
+		// between any two steps of the parser (e.g. after it took a commit event, before the hand-over)
+		f.At = rapid.IntRange(1, 3*nsteps+4).Draw(rt, "log_call_at")
 	case f.Kind == "err_handshake" || f.Kind == "err_query":
 	default:
 		f.At = rapid.IntRange(1, 2).Draw(rt, "mapper_at")
@@ -283,6 +294,30 @@ func faultAttempt(ss *session, l *hist.Layout, spec AttemptSpec) (attempt, func(
 			n++
 			if n == f.At {
 				cancel()
+			}
+			return nil
+		}
+	case f.Kind == "cancel_log":
+		ctx, cancel := context.WithCancel(context.Background())
+		at.ctx = ctx
+		var n int32
+		logHook.Store(func(reader bool) {
+			if !reader && atomic.AddInt32(&n, 1) == int32(f.At) {
+				cancel()
+			}
+		})
+		cleanup = func() { logHook.Store(func(bool) {}); cancel() }
+	case f.Kind == "handler_err_cancel":
+		// the handler cancels the caller's context and THEN reports its failure
+		ctx, cancel := context.WithCancel(context.Background())
+		at.ctx = ctx
+		cleanup = cancel
+		n := 0
+		at.handler = func(tx *gobinlog.Transaction, st *attemptState) error {
+			n++
+			if n == f.At {
+				cancel()
+				return errInjected
 			}
 			return nil
 		}
